@@ -42,7 +42,7 @@ RULE = ('directed prefix (single/multiple inheritance overrides: decorated, unde
         '(assignment, slot assignment, param.update, batch_call_watchers blocks).  Compared with the model: the class table, '
         'method_dependencies of every method, the constructor log and the log of every operation.  non-trivial = at least '
         'one method was invoked by an operation and the oracle judged >=1 step; distinct = distinct canonical case')
-COVERAGE_TARGETS = ['init:assigning-on_init', 'table:inherited-entry', 'table:own-entry', 'method:not-watched', 'install:several-groups',
+COVERAGE_TARGETS = ['op:nested-batch', 'method:assigning', 'cascade:nested-call', 'init:assigning-on_init', 'table:inherited-entry', 'table:own-entry', 'method:not-watched', 'install:several-groups',
                     'install:one-group', 'install:on_init', 'install:function-form', 'op:set', 'op:setslot', 'op:update',
                     'op:batch', 'dispatch-model:agrees', 'create:AttributeError', 'create:RecursionError',
                     'shape:diamond', 'shape:chain', 'override:undecorated', 'override:decorated', 'override:watch-false']
@@ -57,30 +57,77 @@ def _spec_str(attr, what):
     return attr if what == 'value' else f'{attr}:{what}'
 
 
-def _mk_method(name, k, assign=None):
+TR = [[]]       # stack of children lists: the trace node under construction is TR[-1]
+
+
+def _cur(o, name, what):
+    if what == 'value':
+        return getattr(o, name)
+    if what == 'bounds':
+        return o.param[name].bounds[1] - 1000
+    return o.param[name].step - 1
+
+
+def _traced_set(o, name, what, v):
+    """one assignment, as a trace node: ["asg", name, what, old, new, batching, children]"""
+    node = ['asg', name, what, _cur(o, name, what), v, bool(o.param._BATCH_WATCH), []]
+    TR[-1].append(node)
+    TR.append(node[6])
+    try:
+        if what == 'value':
+            setattr(o, name, v)
+        elif what == 'bounds':
+            o.param[name].bounds = (-1000, 1000 + v)
+        elif what == 'step':
+            o.param[name].step = v + 1
+        else:
+            raise RuntimeError(what)
+    finally:
+        TR.pop()
+
+
+def _mk_method(name, k, assign=None, body=()):
     done = set()
 
     def f(self):
         LOG.append(f'{name}@{k}')
-        if assign is not None and id(self) not in done:
-            done.add(id(self))          # an assigning method assigns on its first invocation only
-            setattr(self, assign[0], assign[1])
+        node = ['call', f'{name}@{k}', []]
+        TR[-1].append(node)
+        TR.append(node[2])
+        try:
+            if assign is not None and id(self) not in done:
+                done.add(id(self))          # an assigning on_init method assigns on its first invocation only
+                setattr(self, assign[0], assign[1])
+            for p, v in body:               # a relay method assigns at every invocation
+                _traced_set(self, p, 'value', v)
+        finally:
+            TR.pop()
     f.__name__ = name
     return f
 
 
-def _set_simple(param, o, s):
+def _run_stmt(param, o, s):
     if s['op'] == 'set':
-        if s['what'] == 'value':
-            setattr(o, s['name'], s['v'])
-        elif s['what'] == 'bounds':
-            o.param[s['name']].bounds = (-1000, 1000 + s['v'])
-        elif s['what'] == 'step':
-            o.param[s['name']].step = s['v'] + 1
-        else:
-            raise RuntimeError(s['what'])
+        _traced_set(o, s['name'], s['what'], s['v'])
     elif s['op'] == 'update':
-        o.param.update(**{k: v for k, v in s['kvs']})
+        # the keys are assigned inside param.update: their nodes are written here, from the values held before
+        node = ['block', 'update', [['asg', k, 'value', getattr(o, k), v, True, []] for k, v in s['kvs']]]
+        TR[-1].append(node)
+        TR.append(node[2])
+        try:
+            o.param.update(**{k: v for k, v in s['kvs']})
+        finally:
+            TR.pop()
+    elif s['op'] == 'batch':
+        node = ['block', 'batch', []]
+        TR[-1].append(node)
+        TR.append(node[2])
+        try:
+            with param.parameterized.batch_call_watchers(o):
+                for x in s['body']:
+                    _run_stmt(param, o, x)
+        finally:
+            TR.pop()
     else:
         raise RuntimeError(s['op'])
 
@@ -95,7 +142,8 @@ def run_impl(case):
                 ns[p] = param.Number(default=0, bounds=(-1000, 1000), step=1)
             for m in d['methods']:
                 asg = next(((a[2], a[3]) for a in case.get('assigns', []) if a[0] == m['name'] and a[1] == i), None)
-                f = _mk_method(m['name'], i, asg)
+                body = next((b[2] for b in case.get('bodies', []) if b[0] == m['name'] and b[1] == i), ())
+                f = _mk_method(m['name'], i, asg, [tuple(kv) for kv in body])
                 di = m['dinfo']
                 if di is not None:
                     f = param.depends(*[_spec_str(a, w) for a, w in di['specs']],
@@ -111,11 +159,14 @@ def run_impl(case):
                 return {'crash': f'MRO of class {i} is {mro}, case says {d["mro"]}'}
         c = case['inst']
         del LOG[:]
+        del TR[:]
+        TR.append([])
         o = K[c]()
         out = {'create': None, 'init': list(LOG)}
         for label, names in case['fns']:
             def fn(*a, _l=label):
                 LOG.append(_l)
+                TR[-1].append(['call', _l, []])
             param.depends(*[o.param[n] for n in names], watch=True)(fn)
         out['table'] = [{'name': e[0], 'queued': bool(e[1]), 'on_init': bool(e[2]),
                          'deps': [[K.index(x.cls), x.name, x.what] for x in e[3]]}
@@ -125,17 +176,16 @@ def run_impl(case):
         steps = []
         for op in case['ops']:
             del LOG[:]
+            del TR[:]
+            TR.append([])
             ok = True
             try:
-                if op['op'] == 'batch':
-                    with param.parameterized.batch_call_watchers(o):
-                        for s in op['body']:
-                            _set_simple(param, o, s)
-                else:
-                    _set_simple(param, o, op)
+                _run_stmt(param, o, op)
             except (ValueError, TypeError, KeyError, AttributeError):
                 ok = False
-            steps.append({'ok': ok, 'log': list(LOG)})
+            steps.append({'ok': ok, 'log': list(LOG), 'trace': json.loads(json.dumps(TR[0]))})
+            del TR[:]
+            TR.append([])
         out['steps'] = steps
         return out
     except Exception as e:
@@ -175,10 +225,12 @@ def _init_vals(case):
     return [[p, w, 0] for p in ps for w in WHATS]
 
 
-def _finish(classes, inst, fns, ops, assigns=None):
+def _finish(classes, inst, fns, ops, assigns=None, bodies=None):
     case = {'classes': classes, 'inst': inst, 'fns': fns, 'ops': ops}
     if assigns:
         case['assigns'] = assigns
+    if bodies:
+        case['bodies'] = bodies
     case['init'] = _init_vals(case)
     return case
 
@@ -190,6 +242,57 @@ def _gen_simple(rng, ps, allow_update=True):
         return {'op': 'set', 'name': rng.choice(ps), 'what': w, 'v': rng.choice([0, 0, 1, 1, 2, 3])}
     ks = rng.sample(ps, rng.randint(1, min(3, len(ps))))
     return {'op': 'update', 'kvs': [[k, rng.choice([0, 1, 1, 2, 3])] for k in ks]}
+
+
+def _gen_batch(rng, ps, depth=0):
+    """a batch_call_watchers block; a helper that batches its own assignments may be called inside a batch: blocks nest"""
+    body = []
+    for _ in range(rng.randint(1, 4)):
+        if depth < 2 and rng.random() < 0.25:
+            body.append(_gen_batch(rng, ps, depth + 1))
+        else:
+            body.append(_gen_simple(rng, ps))
+    return {'op': 'batch', 'body': body}
+
+
+def _gen_ops(rng, ps):
+    ops = []
+    for _ in range(rng.randint(3, 8)):
+        ops.append(_gen_batch(rng, ps) if rng.random() < 0.3 else _gen_simple(rng, ps))
+    return ops
+
+
+def _gen_cascade(rng):
+    """methods that ASSIGN: one or two classes (a chain), parameters p0..p3, methods depending on parameters (values and
+    attributes) whose bodies assign parameters of HIGHER index than everything they depend on (so every cascade ends);
+    queued methods and decorated functions only log.  Programs as in the other cases (assignments, updates, nested batches)."""
+    npar = rng.randint(3, 4)
+    pnames = [f'p{i}' for i in range(npar)]
+    n = rng.choice([1, 1, 2])
+    classes = [_cls([], [0], pnames, [])]
+    if n == 2:
+        classes.append(_cls([0], [1, 0], [], []))
+    bodies = []
+    for j, m in enumerate(['m0', 'm1', 'm2', 'm3'][:rng.randint(2, 4)]):
+        for k in range(n):
+            if k == 1 and rng.random() < 0.6:
+                continue
+            if k == 0 and n == 2 and rng.random() < 0.15:
+                continue
+            deps = rng.sample(range(npar), rng.randint(1, 2))
+            specs = [[f'p{i}', 'value' if rng.random() < 0.8 else rng.choice(['bounds', 'step'])] for i in deps]
+            queued = rng.random() < 0.12
+            classes[k]['methods'].append({'name': m, 'dinfo': {'specs': specs, 'watch': True, 'queued': queued, 'on_init': False}})
+            higher = [i for i in range(npar) if i > max(deps)]
+            if higher and not queued and rng.random() < 0.75:
+                body = []
+                for _ in range(rng.randint(1, 3)):
+                    body.append([f'p{rng.choice(higher)}', rng.choice([1, 2, 3])])
+                bodies.append([m, k, body])
+    inst = n - 1
+    case = _finish(classes, inst, [], [])
+    fns = [['f0', rng.sample(pnames, rng.randint(1, 2))]] if rng.random() < 0.2 else []
+    return _finish(classes, inst, fns, _gen_ops(rng, pnames), None, bodies)
 
 
 def _gen_case(rng):
@@ -248,13 +351,7 @@ def _gen_case(rng):
         if rng.random() < 0.15:
             names.append(names[0])
         fns.append(['f0', names])
-    ops = []
-    if ps:
-        for _ in range(rng.randint(3, 8)):
-            if rng.random() < 0.3:
-                ops.append({'op': 'batch', 'body': [_gen_simple(rng, ps) for _ in range(rng.randint(1, 4))]})
-            else:
-                ops.append(_gen_simple(rng, ps))
+    ops = _gen_ops(rng, ps) if ps else []
     assigns = []
     if ps and rng.random() < 0.3:
         # on_init methods that assign a parameter while the object is constructed (no queued watchers then)
@@ -330,6 +427,25 @@ def _directed():
     # function form
     yield _finish([A], 0, [['f0', ['p0', 'p1']]], list(_PROG))
     yield _finish([A], 0, [['f0', ['p0', 'p0']]], list(_PROG))
+    # nested batch blocks: a helper batching its own assignments, called inside a batch (one unit, delivered at the outer exit)
+    NB = {'op': 'batch', 'body': [_S('p0', 1), {'op': 'batch', 'body': [_S('p1', 10)]}, _S('p0', 2)]}
+    NB2 = {'op': 'batch', 'body': [{'op': 'batch', 'body': [_S('p0', 5), {'op': 'batch', 'body': [_S('p1', 1, 'bounds')]}]},
+                                   {'op': 'update', 'kvs': [['p1', 4]]}]}
+    yield _finish([A], 0, [], [NB, NB2, _S('p0', 2), NB])
+    yield _finish([A, B], 1, [['f0', ['p0', 'p1']]], [NB, NB2, NB])
+    # methods that assign: `relay` (on p0) assigns p1 then p2, `sink` watches p1 and p2: one call per assignment,
+    # whichever way p0 was changed (assignment, update, batch, nested batch); a relay of a relay; a queued sink
+    R = _cls([], [0], ['p0', 'p1', 'p2', 'p3'], [_dm('m0', ['p0']), _dm('m1', ['p1', 'p2']), _dm('m2', ['p2']), _dm('m3', ['p3'], queued=True)])
+    RP = [_S('p0', 1), {'op': 'update', 'kvs': [['p0', 2]]}, {'op': 'batch', 'body': [_S('p0', 3)]},
+          {'op': 'batch', 'body': [_S('p0', 4), {'op': 'batch', 'body': [_S('p1', 9)]}, _S('p0', 5)]}, _S('p0', 5),
+          {'op': 'update', 'kvs': [['p0', 6], ['p1', 6]]}]
+    yield _finish([R], 0, [], list(RP), None, [['m0', 0, [['p1', 1], ['p2', 1]]]])
+    yield _finish([R], 0, [], list(RP), None, [['m0', 0, [['p1', 1], ['p1', 2]]], ['m2', 0, [['p3', 7]]]])
+    yield _finish([R], 0, [['f0', ['p2', 'p3']]], list(RP), None, [['m0', 0, [['p2', 1], ['p1', 1]]], ['m1', 0, [['p3', 1], ['p3', 2]]]])
+    # the relay is inherited / overridden by a method with another body
+    yield _finish([R, _cls([0], [1, 0], [], [])], 1, [], list(RP), None, [['m0', 0, [['p1', 1], ['p2', 1]]]])
+    yield _finish([R, _cls([0], [1, 0], [], [_dm('m0', ['p0', 'p1'])])], 1, [], list(RP), None,
+                  [['m0', 0, [['p1', 1], ['p2', 1]]], ['m0', 1, [['p2', 3], ['p3', 3]]]])
     # class statements that raise
     yield _finish([_cls([], [0], ['p0'], [_dm('m0', ['zz'], watch=False)])], 0, [], [])
     yield _finish([_cls([], [0], ['p0'], [_dm('m0', ['m1']), _dm('m1', ['m0'])])], 0, [], [])
@@ -346,7 +462,7 @@ def cases(rng, tier, worker, nworkers):
             yield c
     n = 1500 if tier == 'quick' else 32000 // nworkers
     for _ in range(n):
-        yield _gen_case(rng)
+        yield _gen_cascade(rng) if rng.random() < 0.3 else _gen_case(rng)
 
 
 # ------------------------------------------------------------------ reporting
@@ -395,8 +511,16 @@ def shrink(case):
         for i in range(len(asg)):
             yield _finish0(cl, inst, fns, ops, asg[:i] + asg[i + 1:])
 
-    def _finish(a, b, c, d):          # every candidate keeps the constructor-time assignments
-        return _finish0(a, b, c, d, asg)
+    bod = case.get('bodies')
+    if bod:
+        for i in range(len(bod)):
+            yield _finish0(cl, inst, fns, ops, asg, bod[:i] + bod[i + 1:])
+            if len(bod[i][2]) > 1:
+                for j in range(len(bod[i][2])):
+                    yield _finish0(cl, inst, fns, ops, asg, bod[:i] + [[bod[i][0], bod[i][1], bod[i][2][:j] + bod[i][2][j + 1:]]] + bod[i + 1:])
+
+    def _finish(a, b, c, d):          # every candidate keeps the assignments made by methods
+        return _finish0(a, b, c, d, asg, bod)
     for i in range(len(ops)):
         yield _finish(cl, inst, fns, ops[:i] + ops[i + 1:])
     for i, op in enumerate(ops):
@@ -404,6 +528,14 @@ def shrink(case):
             for j in range(len(op['body'])):
                 if len(op['body']) > 1:
                     yield _finish(cl, inst, fns, ops[:i] + [dict(op, body=op['body'][:j] + op['body'][j + 1:])] + ops[i + 1:])
+                if op['body'][j]['op'] == 'batch':
+                    # dissolve a nested block / shrink inside it
+                    inner = op['body'][j]['body']
+                    yield _finish(cl, inst, fns, ops[:i] + [dict(op, body=op['body'][:j] + inner + op['body'][j + 1:])] + ops[i + 1:])
+                    for q in range(len(inner)):
+                        if len(inner) > 1:
+                            nb = dict(op['body'][j], body=inner[:q] + inner[q + 1:])
+                            yield _finish(cl, inst, fns, ops[:i] + [dict(op, body=op['body'][:j] + [nb] + op['body'][j + 1:])] + ops[i + 1:])
         if op['op'] == 'update' and len(op['kvs']) > 1:
             for j in range(len(op['kvs'])):
                 yield _finish(cl, inst, fns, ops[:i] + [dict(op, kvs=op['kvs'][:j] + op['kvs'][j + 1:])] + ops[i + 1:])
